@@ -508,12 +508,25 @@ def handle_failure(prop, g, ob, ses, replay_dir, violations, known):
            'status': r['status'], 'solver': r['solver'], 'solver_output': (r.get('output') or '')[:4000],
            'rerun': 'cd /verif && ./gowp check %s' % prop}
     noinput = True
-    if r['status'] == 'sat':
+    if not g['func'].startswith('lemma.'):
         try:
             from . import replay
-            ok, details = replay.try_replay(ses, g, ob, r)
+            ground = r['status'] != 'sat'
+            if ground and not solve.has_quant(ob.cond):
+                # no model from the full query: look for a candidate among the models of the quantifier-free part of
+                # the context; it counts only if the real code confirms it
+                st2, _, _ = solve.run_solver('z3new', solve.emit(g['ctx'], ob, ground=True), 10, ses.workdir)
+                ground = (st2 == 'sat')
+                if not ground:
+                    raise replay.NoReplay('no candidate model')
+            elif ground:
+                raise replay.NoReplay('quantified clause, solver gave no model')
+            ok, details = replay.try_replay(ses, g, ob, r, ground=ground)
+            details['model_from'] = 'quantifier-free part of the context (candidate only)' if ground else 'full query'
             rec['replay'] = details
             noinput = not ok
+        except replay.NoReplay as ex:
+            rec['replay'] = {'status': 'unsupported', 'reason': str(ex)}
         except Exception as ex:     # replay is best effort
             rec['replay'] = {'error': '%s: %s' % (type(ex).__name__, ex)}
     json.dump(rec, open(rp, 'w'), indent=1, default=str)
@@ -524,6 +537,41 @@ def write_evidence(path, prop, tier, seed, cov, _unused, wall, nviol, assumption
     ev = {'property_id': prop, 'tier': tier, 'seed': seed, 'level': 'proof', 'coverage': cov or {'obligations': 0, 'discharged': 0, 'checker_cmd': '', 'trusted_base': []},
           'assumptions': assumptions, 'wall_s': round(wall, 2), 'violations': nviol}
     json.dump(ev, open(path, 'w'), indent=1, default=str)
+
+
+def replay_file(path):
+    """re-run a recorded counterexample (or, when none was found, re-run the property's check)"""
+    import subprocess, tempfile
+    rec = json.load(open(path))
+    rp = rec.get('replay') or {}
+    print('obligation: %s (%s) line %s' % (rec.get('obligation'), rec.get('kind'), rec.get('line')))
+    print('clause    : %s' % rec.get('clause'))
+    if rp.get('go_test'):
+        fn_ = rec.get('function', '')
+        ses = Session([MOD + '/' + p for p in PROPS[rec['property']]])
+        f = ses.prog.funcs.get(fn_)
+        pkgdir = os.path.dirname(f['file'])
+        tmp = tempfile.mkdtemp(prefix='gowp-replay-')
+        tf = os.path.join(tmp, 'zz_gowp_replay_test.go')
+        open(tf, 'w').write(rp['go_test'])
+        ov = os.path.join(tmp, 'ov.json')
+        json.dump({'Replace': {os.path.join(pkgdir, 'zz_gowp_replay_test.go'): tf}}, open(ov, 'w'))
+        env = dict(os.environ, GOFLAGS='-mod=mod', GOPROXY='off', GOSUMDB='off', GOTOOLCHAIN='local')
+        p = subprocess.run(['bash', '-c', 'cd %s && go test -v -overlay %s -vet=off -count=1 -timeout 60s -run TestGowpReplay . 2>&1' % (pkgdir, ov)], stdout=subprocess.PIPE, env=env)
+        out = p.stdout.decode('utf8', 'replace')
+        shutil.rmtree(tmp, ignore_errors=True)
+        shutil.rmtree(ses.workdir, ignore_errors=True)
+        print('call      : %s' % rp.get('call'))
+        for l in out.split('\n'):
+            if 'GOWP-REPLAY' in l:
+                print('observed  : ' + l.strip())
+        print('recorded  : %s' % rp.get('observed'))
+        still = ('GOWP-REPLAY panic' in out) if str(rp.get('observed', '')).startswith('panic') else (('GOWP-REPLAY results: ' + str(rp.get('observed'))) in out)
+        print('verdict   : %s' % ('violation reproduced' if still else 'not reproduced on the current tree'))
+        return 1 if still else 0
+    print('no failing input was recorded for this obligation; solver status %s' % rec.get('status'))
+    print((rec.get('solver_output') or '')[:2000])
+    return check_property(rec['property'], 'quick', 0)
 
 
 def write_lock(props):
@@ -562,6 +610,8 @@ def main(argv=None):
         return check_property(a.args[0], a.tier, seed)
     if a.cmd == 'lock':
         return write_lock(a.args)
+    if a.cmd == 'replay':
+        return replay_file(a.args[0])
     if a.cmd == 'bounded':
         from . import bounded
         ses = Session(pkgs)
